@@ -41,6 +41,11 @@ THEOREMS = [
     "Determinism.documentOrder_visible_only",
     "Determinism.addTemplate_swap", "Determinism.addTemplateDir_listing_invariant_partial",
     "Determinism.addTemplateDir_listing_counterexample_old", "Determinism.addTemplateDirSorted_listing_invariant",
+    "Determinism.getExtensions_listing_counterexample", "Determinism.getExtensions_listing_invariant_partial",
+    "Determinism.getExtensionsSorted_listing_invariant", "Determinism.kindAfterVisitors_order_counterexample",
+    "Determinism.kindAfterVisitors_single_claim",
+    "Determinism.setRepr_invariant_partial", "Determinism.setRepr_counterexample", "Determinism.setReprSorted_invariant",
+    "Determinism.rstDate_is_the_clock", "Determinism.rstDate_counterexample",
     "Determinism.buildtime_function_of_inputs", "Determinism.buildtime_epoch_used", "Determinism.buildtime_epoch_zero",
     "Determinism.buildtime_option_wins", "Determinism.buildtime_clock_when_unset", "Determinism.buildtime_notInt_refused",
 ]
@@ -58,6 +63,22 @@ PARTIAL = {
     "Determinism.lower_order_invariant_partial":
         "findRootClasses (classIndex roots) and the zope `implements` list sort by x.lower(): excluded are names that differ in "
         "case only; lower_tie_counterexample; ties keep dict / list order",
+    "Determinism.getExtensions_listing_invariant_partial":
+        "statement: the order in which the built-in extensions are loaded does not depend on how the file system lists "
+        "pydoctor/extensions/. False of the code (unsorted iterdir()); proved for a directory with at most one extension "
+        "module; getExtensions_listing_counterexample; kindAfterVisitors_order_counterexample shows that the load order reaches "
+        "the output (attrs and zopeinterface both assign attr.kind, last loaded wins), kindAfterVisitors_single_claim that it "
+        "does so only when two extensions claim the same assignment. OPEN finding listing-order:extension-load-order; "
+        "getExtensionsSorted_listing_invariant is the full statement for fixes/C18-extension-load-order-sorted.diff",
+    "Determinism.setRepr_invariant_partial":
+        "statement: the text of a set default of an introspected signature (--introspect-c-modules, model._EscapedRepr) does not "
+        "depend on the enumeration of the set. False (repr of the live set); proved for sets of at most one element; "
+        "setRepr_counterexample. OPEN finding hashseed:introspected-set-default; setReprSorted_invariant is the full statement "
+        "for fixes/C18-introspected-set-default-sorted.diff",
+    "Determinism.rstDate_is_the_clock":
+        "statement: the time a docstring shows through docutils' `date` directive is a function of SOURCE_DATE_EPOCH / "
+        "--buildtime. False: it is the wall clock whatever is given (rstDate_counterexample, next to the footer time, which "
+        "is fixed). No hypothesis on the inputs repairs it. OPEN finding wall-clock:rst-date-directive",
     "Determinism.rerun_idempotent":
         "hypothesis wfRun: the name that becomes the root symlink (<root>.html) is not written after the link is made, and "
         "either not before it, or the link target (index.html) is rewritten afterwards and differs from it. Since /repo "
@@ -86,10 +107,10 @@ ASSUMPTIONS = [
     "attribute access are not seen; only the byte comparison speaks for them",
     "ordering inside lunr, twisted.web.template, docutils, json and the file system itself is not modelled; only the "
     "byte comparison speaks for them",
-    "extension discovery (pydoctor.extensions._importlib_resources_contents) iterates an UNSORTED listing of the "
-    "installed pydoctor/extensions directory, so extensions load in listing order; the model does not show that the "
-    "built-in extensions commute - catalogued as `assumed_commutative`, exercised by the oracle (the launcher reorders "
-    "that listing too and the generated sources use attrs, zope.interface and deprecate)",
+    "the extension module of the --introspect-c-modules projects is compiled during the run with the system C compiler "
+    "(cc / gcc / clang and Python.h); without one that shape is not generated (counted c-module:no-compiler)",
+    "attribution of a listing-order difference to the extension load order is made by an experiment: the same build with only "
+    "pydoctor/extensions/ listed in name order (launcher --pin) equals the reference build",
     "module and package names are identifiers (urllib.parse.quote is the identity on every name the url stream sends); "
     "TemplateLookup: the version check of HTML templates and the directory-override check are not transcribed (stream uses "
     "templates without a version, flat directories)",
@@ -196,6 +217,58 @@ def doc_block(rng, fmt: str, targets: List[str]) -> str:
     return text + (fields if rng.random() < 0.7 else "")
 
 
+CONFLICT_SNIPPET = ("import attr, zope.schema\nfrom zope.interface import Attribute\n@attr.s(auto_attribs=True)\nclass Claimed{n}:\n"
+                    "    \"attrs and zope.interface both recognise these assignments\"\n"
+                    "    x: int = Attribute('doc of x')\n    y: str = zope.schema.TextLine(description='doc of y')\n    z: int = 0\n")
+RST_DATE_SNIPPET = ("def stamped{n}():\n    \"\"\"Built |now|.\n\n    .. |now| date:: %Y-%m-%d %H:%M:%S\n    \"\"\"\n")
+
+C_SOURCE = r'''
+#include <Python.h>
+static PyObject* f(PyObject* self, PyObject* args, PyObject* kw) { Py_RETURN_NONE; }
+static PyMethodDef methods[] = {
+  {"f", (PyCFunction)f, METH_VARARGS|METH_KEYWORDS,
+   "f($module, /, flags={'alpha', 'beta', 'gamma', 'delta'}, pair=({'x', 'y', 'z'}, 1), n=3)\n--\n\nDo f."},
+  {"g", (PyCFunction)f, METH_VARARGS|METH_KEYWORDS, "g($module, /, one={'only'}, empty=(), d={'k': 1})\n--\n\nDo g."},
+  {NULL, NULL, 0, NULL}
+};
+static struct PyModuleDef mod = {PyModuleDef_HEAD_INIT, "cmod", "C module.", -1, methods};
+PyMODINIT_FUNC PyInit_cmod(void) { return PyModule_Create(&mod); }
+'''
+_CMOD: Dict[str, Optional[Path]] = {}
+
+
+def compiled_cmodule(scratch: Path) -> Optional[Path]:
+    """a tiny extension module whose text signatures have set defaults, compiled once per run with the system C compiler
+    (None when there is none: the shape is then not generated, and counted)"""
+    import sysconfig
+    key = str(scratch)
+    if key in _CMOD:
+        return _CMOD[key]
+    res: Optional[Path] = None
+    cc = shutil.which("cc") or shutil.which("gcc") or shutil.which("clang")
+    inc = sysconfig.get_paths().get("include")
+    if cc and inc and (Path(inc) / "Python.h").exists():
+        d = scratch / "cmod-build"
+        d.mkdir(exist_ok=True)
+        (d / "cmod.c").write_text(C_SOURCE)
+        out = d / ("cmod" + (sysconfig.get_config_var("EXT_SUFFIX") or ".so"))
+        r = subprocess.run([cc, "-shared", "-fPIC", "-O0", "-I", inc, str(d / "cmod.c"), "-o", str(out)],
+                           stdout=subprocess.PIPE, stderr=subprocess.PIPE)
+        if r.returncode == 0 and out.exists():
+            res = out
+    _CMOD[key] = res
+    return res
+
+
+def add_cmodule(p: Dict[str, Any]) -> Dict[str, Any]:
+    """one more root: package cpkg with the compiled module, documented with --introspect-c-modules"""
+    p["files"]["cpkg/__init__.py"] = "x = 1\n"
+    p["roots"] = p["roots"] + ["cpkg"]
+    p["args"] = p["args"] + ["--introspect-c-modules"]
+    p["cmodule"] = "cpkg"
+    return p
+
+
 EXT_SNIPPETS = [
     "import attr\n@attr.s(auto_attribs=True)\nclass AttrsData{n}:\n    '''attrs class'''\n    x: int = 0\n    y: str = attr.ib(default='a')\n",
     "from zope.interface import Interface, Attribute, implementer\nclass IThing{n}(Interface):\n    '''an interface'''\n    size = Attribute('the size')\n    def go(arg):\n        '''go'''\n@implementer(IThing{n})\nclass Thing{n}:\n    size = 1\n    def go(self, arg):\n        pass\n",
@@ -227,6 +300,10 @@ def gen_project(rng, idx: int) -> Dict[str, Any]:
                 extra += ["def %s(a):" % nm, '    """%s\n    """' % doc_block(rng, fmt, targets)]
         if rng.random() < 0.3:
             extra += rng.choice(EXT_SNIPPETS).format(n=n, root=u.qname.split(".")[0]).splitlines()
+        if rng.random() < 0.15:
+            extra += CONFLICT_SNIPPET.format(n=n).splitlines()
+        if fmt == "restructuredtext" and rng.random() < 0.4:
+            extra += RST_DATE_SNIPPET.format(n=n).splitlines()
         src = src + "\n".join(extra) + ("\n" if extra else "")
         parts = u.qname.split(".")
         rel = "/".join(parts) + ("/__init__.py" if u.is_package else ".py")
@@ -257,8 +334,11 @@ def gen_project(rng, idx: int) -> Dict[str, Any]:
         args += ["--html-viewsource-base=https://example.org/src", "--project-base-dir=@SRC@"]
     if rng.random() < 0.2:
         args.append("--sidebar-expand-depth=%d" % rng.randint(1, 3))
-    return {"id": "p%d" % idx, "files": files, "roots": roots, "args": args, "explicit": explicit,
-            "docformat": fmt, "kind": "generated"}
+    p = {"id": "p%d" % idx, "files": files, "roots": roots, "args": args, "explicit": explicit,
+         "docformat": fmt, "kind": "generated"}
+    if rng.random() < 0.15 and "cpkg" not in [r.split("/")[0] for r in roots]:
+        add_cmodule(p)
+    return p
 
 
 def with_name(p: Dict[str, Any], name: str) -> Dict[str, Any]:
@@ -284,6 +364,11 @@ def materialise(p: Dict[str, Any], base: Path) -> Path:
         f = src / rel
         f.parent.mkdir(parents=True, exist_ok=True)
         f.write_text(text, encoding="utf-8")
+    if p.get("cmodule"):
+        so = compiled_cmodule(base.parent)
+        if so is not None:
+            (src / p["cmodule"]).mkdir(parents=True, exist_ok=True)
+            shutil.copy(so, src / p["cmodule"] / so.name)
     for rel, text in p.get("templates", {}).items():
         f = base / "tpl" / rel
         f.parent.mkdir(parents=True, exist_ok=True)
@@ -306,7 +391,8 @@ def corpus_projects() -> List[Dict[str, Any]]:
     """every finding's input and every seeded change's needed shape (/verif/seeded/C18*/meta.json), as fixed projects"""
     def proj(pid: str, files: Dict[str, str], roots: List[str], args: List[str], epoch: str, explicit: Optional[str] = None) -> Dict[str, Any]:
         return {"id": "corpus-" + pid, "kind": "generated", "files": files, "roots": roots, "explicit": explicit,
-                "args": ["--docformat=plaintext"] + args, "docformat": "plaintext", "epoch": epoch}
+                "args": (["--docformat=plaintext"] if not any("date::" in v for v in files.values()) else ["--docformat=restructuredtext"]) + args,
+                "docformat": "plaintext", "epoch": epoch}
     return [
         # finding hashseed:project-name-guess (fixed f35e237) = seeded C18-1: several roots, no --project-name;
         # SOURCE_DATE_EPOCH=0 = seeded C18-r2-3
@@ -334,6 +420,14 @@ def corpus_projects() -> List[Dict[str, Any]]:
         dict(proj("template-case-collision", {"m.py": "x = 1\n"}, ["m.py"], ["--template-dir=@TPL@"], "1"),
              templates={"Extra.css": "/* UPPER */\n", "extra.css": "/* lower */\n", "My.css": "A\n", "my.css": "b\n", "plain.txt": "t\n"},
              modes=["sorted", "reverse"]),
+        # hunter round. open finding listing-order:extension-load-order: attrs and zopeinterface both claim an assignment
+        dict(proj("extension-conflict", {"m.py": CONFLICT_SNIPPET.format(n=0)}, ["m.py"], ["--project-name=demo"], "1700000000", "demo"),
+             modes=["sorted", "reverse"]),
+        # open finding hashseed:introspected-set-default: --introspect-c-modules, set default in a text signature
+        add_cmodule(proj("c-module-set-default", {"lib.py": "x = 1\n"}, ["lib.py"], ["--project-name=demo"], "1", "demo")),
+        # open finding wall-clock:rst-date-directive: docutils' date directive shows the clock whatever build time is given
+        proj("rst-date-directive", {"m.py": '"""Generated at |now|.\n\n.. |now| date:: %Y-%m-%d %H:%M:%S\n"""\n__docformat__ = "restructuredtext"\n'
+                                             + RST_DATE_SNIPPET.format(n=0)}, ["m.py"], ["--project-name=demo"], "2147483647", "demo"),
         # a SOURCE_DATE_EPOCH the tree refuses
         proj("epoch-not-a-number", {"m.py": "x = 1\n"}, ["m.py"], [], "abc"),
     ]
@@ -423,7 +517,7 @@ def clock_for(p: Dict[str, Any], *key: Any) -> int:
 
 
 def run_build(p: Dict[str, Any], src: Path, out: Path, hashseed: int, mode: str, sidecar: Path,
-              tag: str = "", clock: int = CLOCK_BASE, timeout: int = 1500) -> Dict[str, Any]:
+              tag: str = "", clock: int = CLOCK_BASE, timeout: int = 1500, pin: str = "") -> Dict[str, Any]:
     """tag: '' = SOURCE_DATE_EPOCH of the project; 'clock' = the same at another wall-clock time; 'bt' = variable
     unset, --buildtime given; 'noenv' = neither (correspondence of the build-time decision only)"""
     env = subprocess_env(hashseed)
@@ -437,7 +531,7 @@ def run_build(p: Dict[str, Any], src: Path, out: Path, hashseed: int, mode: str,
         epoch = p.get("epoch", str(EPOCH))
         env["SOURCE_DATE_EPOCH"] = epoch
     cmd = [sys.executable, "-m", "harness.impl.launch_shuffled", mode, "--sidecar", str(sidecar),
-           "--outdir", str(out), "--srcroot", str(src), "--clock", str(clock), "--",
+           "--outdir", str(out), "--srcroot", str(src), "--clock", str(clock)] + (["--pin", pin] if pin else []) + ["--",
            "-q", "--html-output=" + str(out)] + args + [str(src / r) for r in p["roots"]]
     pre = snapshot(out)
     try:
@@ -488,7 +582,7 @@ def oracle(ctx: Ctx, p: Dict[str, Any], results: Dict[Tuple[int, str, str], List
            seeds: List[int], modes: List[str]) -> None:
     """byte comparison of every build with the reference build; failures classified by cause"""
     multi_unnamed = len(p["roots"]) >= 2 and p.get("explicit") is None
-    inp = {k: p[k] for k in ("id", "files", "roots", "args", "kind", "templates", "modes") if k in p}
+    inp = {k: p[k] for k in ("id", "files", "roots", "args", "kind", "templates", "modes", "cmodule") if k in p}
     tnames = [os.path.basename(t) for t in p.get("templates", {})]
     template_collision = len({t.lower() for t in tnames}) < len(tnames)
     if p.get("srcroot"):
@@ -532,6 +626,8 @@ def oracle(ctx: Ctx, p: Dict[str, Any], results: Dict[Tuple[int, str, str], List
         ctx.case("%s %d %s clock" % (project_digest(p), r["hashseed"], r["mode"]), True, None)
         ctx.count("build:other-wall-clock")
         k = diff_kind(ref["post"], r["post"])
+        if k and any("date::" in v for v in p.get("files", {}).values()) and ref["side"].get("buildtime") == r["side"].get("buildtime"):
+            k = "rst-date-directive"
         if k:
             ctx.fail("wall-clock:" + k, inp, "SOURCE_DATE_EPOCH=%r, same hash seed and listing order, wall clock %d vs %d: %s differ "
                      "(build time shown: %s vs %s)" % (inp["epoch"], ref["clock"], r["clock"], diff_snap(ref["post"], r["post"])[:4],
@@ -560,6 +656,18 @@ def oracle(ctx: Ctx, p: Dict[str, Any], results: Dict[Tuple[int, str, str], List
         base_same_seed = results[(hs, modes[0], "")][0]
         if mode != modes[0]:
             k = diff_kind(base_same_seed["post"], first["post"])
+            if k and not template_collision and p.get("_base") is not None:
+                # attribution experiment: the same build with ONLY pydoctor/extensions listed in name order
+                pinned = run_build(p, p["_src"], p["_base"] / ("out_pin_%d" % hs), hs, mode, p["_base"] / ("side_pin_%d.json" % hs),
+                                   "", first["clock"], pin="pydoctor/extensions")
+                shutil.rmtree(p["_base"] / ("out_pin_%d" % hs), ignore_errors=True)
+                if not diff_kind(base_same_seed["post"], pinned["post"]):
+                    ctx.fail("listing-order:extension-load-order", inp,
+                             "hash seed %d: listing order %s vs %s changes %s; with only pydoctor/extensions/ listed in name order the "
+                             "trees are equal; extensions loaded as %s vs %s" % (
+                                 hs, modes[0], mode, diff_snap(base_same_seed["post"], first["post"])[:4],
+                                 base_same_seed["side"].get("extensions"), first["side"].get("extensions")))
+                    k = ""
             if k:
                 ctx.fail("listing-order:" + ("template-dir-case-collision" if template_collision else k), inp,
                          "hash seed %d: listing order %s vs %s changes %s" % (
@@ -574,6 +682,10 @@ def oracle(ctx: Ctx, p: Dict[str, Any], results: Dict[Tuple[int, str, str], List
                              "PYTHONHASHSEED=%d guesses project name %r, PYTHONHASHSEED=%d guesses %r; %d files differ (%s ...)" % (
                                  seeds[0], n0, hs, n1, len(diff_snap(ref["post"], first["post"])),
                                  ", ".join(diff_snap(ref["post"], first["post"])[:3])))
+                elif p.get("cmodule") and set(diff_snap(ref["post"], first["post"])) <= {p["cmodule"] + ".cmod.html"}:
+                    ctx.fail("hashseed:introspected-set-default", inp,
+                             "PYTHONHASHSEED=%d vs %d: only %s.cmod.html differs (--introspect-c-modules; the text signatures of the "
+                             "extension module have set defaults)" % (seeds[0], hs, p["cmodule"]))
                 else:
                     ctx.fail("hashseed:" + k, inp, "PYTHONHASHSEED=%d vs %d changes %s" % (
                         seeds[0], hs, diff_snap(ref["post"], first["post"])[:4]))
@@ -608,6 +720,11 @@ def oracle_buildtime_pair(ctx: Ctx, p: Dict[str, Any], inp: Dict[str, Any], resu
         tn = [os.path.basename(t) for t in p.get("templates", {})]
         if k and len({t.lower() for t in tn}) < len(tn) and bts[0]["mode"] != bts[1]["mode"]:
             ctx.fail("listing-order:template-dir-case-collision", inp, "--buildtime builds under two listing orders differ in %s" % diff_snap(bts[0]["post"], bts[1]["post"])[:4])
+        elif k and any("date::" in v for v in p.get("files", {}).values()) and \
+                bts[0]["side"].get("buildtime") == bts[1]["side"].get("buildtime"):
+            if not already:
+                ctx.fail("wall-clock:rst-date-directive", inp, "two builds with the same --buildtime at two wall-clock seconds differ in %s; "
+                         "the sources use the reStructuredText `date` directive" % diff_snap(bts[0]["post"], bts[1]["post"])[:4])
         elif k and not already:       # otherwise the cause has been named by the SOURCE_DATE_EPOCH matrix
             n0, n1 = bts[0]["side"].get("projectname"), bts[1]["side"].get("projectname")
             if multi_unnamed and n0 != n1:
@@ -739,7 +856,8 @@ def sidecar_streams(st: Streams, p: Dict[str, Any], src: Path, r: Dict[str, Any]
         if not okreq:
             continue
         evs = [k + "=" + "/".join(enc(c) for c in comps) for k, comps in side.get("traversal", []) if comps and comps[0] == name]
-        st.add("System.addPackage~addPackage", "determinism traverse 0 %s %s %s %s %s" % (a, s, e, enc(name), " ".join(toks)),
+        st.add("System.addPackage~addPackage", "determinism traverse %d %s %s %s %s %s" % (
+                   1 if "--introspect-c-modules" in p["args"] else 0, a, s, e, enc(name), " ".join(toks)),
                " ".join(["ok"] + evs), dict(where, root=name, listing={k: v for k, v in listing.items()}))
     # operation log of the output directory
     ids: Dict[str, int] = {}
@@ -1180,6 +1298,104 @@ def template_lookup_stream(ctx: Ctx, st: Streams, scratch: Path) -> None:
         pathlib.Path.iterdir = real_iterdir  # type: ignore[assignment]
 
 
+def hunter_streams(ctx: Ctx, st: Streams) -> None:
+    """extension discovery under chosen listing orders; 'last loaded visitor wins' for an assignment two extensions claim;
+    repr of a live set through model._EscapedRepr; docutils' date directive under a moved clock"""
+    import itertools
+    import pathlib
+    import time as _time
+    from pydoctor import extensions, model
+    from ..gen.project import build_system
+    rng = ctx.rng
+    # --- extensions.get_extensions under chosen listing orders of the package directory
+    try:
+        import importlib.resources as importlib_resources
+    except ImportError:       # pragma: no cover
+        import importlib_resources  # type: ignore
+    extdir = pathlib.Path(str(importlib_resources.files("pydoctor.extensions")))
+    real_iterdir = pathlib.Path.iterdir
+    entries = sorted(p.name for p in real_iterdir(extdir))
+    order: List[str] = []
+
+    def iterdir(self: pathlib.Path) -> Any:
+        if self == extdir and order:
+            return iter([self / n for n in order])
+        return real_iterdir(self)
+    pathlib.Path.iterdir = iterdir  # type: ignore[assignment]
+    try:
+        orders = [list(entries), list(reversed(entries))]
+        for _ in range(10 if ctx.quick else 100):
+            o = list(entries)
+            rng.shuffle(o)
+            orders.append(o)
+        for o in orders:
+            order[:] = o
+            impl = [m.split(".")[-1] for m in extensions.get_extensions()]
+            req = "determinism extensions " + " ".join("%s;%s" % (enc(n), "f" if (extdir / n).is_file() else "d") for n in o)
+            st.add("extensions.get_extensions~getExtensions", req, " ".join(["ok"] + [enc(x) for x in impl]), {"listing": o})
+    finally:
+        order[:] = []
+        pathlib.Path.iterdir = real_iterdir  # type: ignore[assignment]
+    # --- the kind of an assignment that several visitor extensions claim: each extension alone, then every load order
+    builtin = sorted(m for m in extensions.get_extensions())
+    src = CONFLICT_SNIPPET.format(n=0)
+
+    def kinds(exts: List[str]) -> Dict[str, int]:
+        cls = type("S", (model.System,), {"extensions": list(exts)})
+        system = cls()
+        build_system([Unit("m", False, src, None)], system=system)
+        return {a: system.allobjects["m.Claimed0." + a].kind.value for a in ("x", "y", "z")}
+    try:
+        base = kinds([])
+        alone = {e: kinds([e]) for e in builtin}
+        for perm in itertools.permutations(builtin):
+            got = kinds(list(perm))
+            for a in ("x", "y", "z"):
+                claims = ["-" if alone[e][a] == base[a] else str(alone[e][a]) for e in perm]
+                st.add("visitor extensions, load order~kindAfterVisitors", "determinism kindafter %d %s" % (base[a], " ".join(claims)),
+                       "ok %d" % got[a], {"attribute": a, "order": [e.split(".")[-1] for e in perm]})
+                ctx.count("kind-claims:%d" % sum(1 for c in claims if c != "-"))
+    except Exception as e:
+        ctx.disagree("visitor extensions, load order~kindAfterVisitors", "setup", "model", "could not build: %r" % e)
+    # --- repr of a live set
+    words = ["alpha", "beta", "gamma", "delta", "x", "y", "z", "a b", "<t>", "q'"]
+    for _ in range(40 if ctx.quick else 400):
+        s_ = set(rng.sample(words, rng.randint(0, 5)))
+        enum = list(s_)
+        import html as _html
+        st.add("model._EscapedRepr(set)~setRepr", "determinism setrepr " + " ".join(enc(_html.escape(repr(x), quote=False)) for x in enum),
+               "ok " + enc(repr(model._EscapedRepr(s_))), {"enumeration": enum})
+    # --- docutils' date directive under a moved clock, SOURCE_DATE_EPOCH set / unset
+    import calendar
+    from pydoctor.epydoc.markup import restructuredtext
+    real_strftime, real_gmtime = _time.strftime, _time.gmtime
+    saved = os.environ.get("SOURCE_DATE_EPOCH")
+    try:
+        for _ in range(6 if ctx.quick else 40):
+            now = CLOCK_BASE + rng.randrange(-10 ** 7, 10 ** 7)
+            epoch = rng.choice([None, "0", "1700000000"])
+            if epoch is None:
+                os.environ.pop("SOURCE_DATE_EPOCH", None)
+            else:
+                os.environ["SOURCE_DATE_EPOCH"] = epoch
+            _time.strftime = lambda fmt, t=None, _n=now: real_strftime(fmt, real_gmtime(_n) if t is None else t)  # type: ignore[assignment]
+            errs: List[Any] = []
+            parsed = restructuredtext.parse_docstring("T |now| T\n\n.. |now| date:: %Y-%m-%d %H:%M:%S\n", errs)
+            _time.strftime = real_strftime  # type: ignore[assignment]
+            text = parsed.to_node().astext()
+            import re
+            m = re.search(r"T (\d{4}-\d\d-\d\d \d\d:\d\d:\d\d) T", text)
+            impl = "time %d" % calendar.timegm(_time.strptime(m.group(1), "%Y-%m-%d %H:%M:%S")) if m else "no date in " + text[:60]
+            st.add("docutils date directive~rstDateTime", "determinism rstdate %d %s -" % (now, classify_epoch(epoch)), impl,
+                   {"SOURCE_DATE_EPOCH": epoch, "clock": now})
+    finally:
+        _time.strftime = real_strftime  # type: ignore[assignment]
+        if saved is None:
+            os.environ.pop("SOURCE_DATE_EPOCH", None)
+        else:
+            os.environ["SOURCE_DATE_EPOCH"] = saved
+
+
 # ------------------------------------------------------------------ run
 
 def real_projects() -> List[Dict[str, Any]]:
@@ -1206,6 +1422,7 @@ def run(ctx: Ctx) -> None:
         os_semantics_stream(ctx, st, scratch)
         presentation_stream(ctx, st, scratch)
         template_lookup_stream(ctx, st, scratch)
+        hunter_streams(ctx, st)
         nproj = 8 if ctx.quick else 200
         # the corpus first, on every run: detection of the known shapes never depends on the seed
         run_projects(ctx, st, corpus_projects(), scratch, jobs=16)
@@ -1264,7 +1481,14 @@ def run_projects(ctx: Ctx, st: Streams, projects: List[Dict[str, Any]], scratch:
         ctx.count("roots=%d%s" % (len(p["roots"]), "" if p.get("explicit") is None else "+name"))
         if p.get("docformat"):
             ctx.count("docformat:" + p["docformat"])
-        oracle(ctx, p, results[n], seeds, modes)
+        p["_src"], p["_base"] = src, base
+        try:
+            oracle(ctx, p, results[n], seeds, modes)
+        finally:
+            p.pop("_src", None)
+            p.pop("_base", None)
+        if p.get("cmodule"):
+            ctx.count("c-module:" + ("built" if compiled_cmodule(scratch) is not None else "no-compiler"))
         for rs in results[n].values():
             for r in rs:
                 buildtime_stream(st, p, r)
